@@ -8,6 +8,7 @@ package main
 
 import (
 	"context"
+	"database/sql"
 	"encoding/hex"
 	"encoding/json"
 	"errors"
@@ -37,11 +38,18 @@ type faults struct {
 	manifest bool
 	read     map[string]int
 	write    map[string]int
+	// the SQLite (metadata/arc.db) / arc.toml (config/arc.toml) step fails in this phase
+	sqlite, config bool
+	// options of the phase: backup = IncludeMetadata / IncludeConfig; restore = RestoreMetadata /
+	// RestoreConfig / NOT RestoreData
+	optMeta, optCfg, optNoData bool
 }
 
 func noFaults() *faults { return &faults{read: map[string]int{}, write: map[string]int{}} }
 
-func (f *faults) any() bool { return f.manifest || len(f.read) > 0 || len(f.write) > 0 }
+func (f *faults) any() bool {
+	return f.manifest || f.sqlite || f.config || len(f.read) > 0 || len(f.write) > 0
+}
 
 // faultBackend wraps the real LocalBackend. isBackup: keys are "<id>/data/<orig>" and
 // "<id>/manifest.json"; otherwise keys are original paths.
@@ -58,7 +66,7 @@ func (b *faultBackend) key(path string) (string, bool) {
 		return path, true
 	}
 	i := strings.Index(path, "/data/")
-	if i < 0 {
+	if i < 0 || strings.Contains(path[:i], "/") { // "<id>/data/<orig>" only
 		return "", false
 	}
 	return path[i+len("/data/"):], true
@@ -103,6 +111,9 @@ func (fr *failingReader) Read(p []byte) (int, error) {
 }
 
 func (b *faultBackend) WriteReader(ctx context.Context, path string, r io.Reader, size int64) error {
+	if b.isBackup && b.f.sqlite && strings.HasSuffix(path, "/metadata/arc.db") {
+		return errInjWrite
+	}
 	if k, ok := b.key(path); ok {
 		if n, bad := b.f.write[k]; bad {
 			b.hitWrite[k] = true
@@ -120,11 +131,20 @@ func (b *faultBackend) Write(ctx context.Context, path string, data []byte) erro
 	if b.isBackup && b.f.manifest && strings.HasSuffix(path, "/manifest.json") {
 		return errInjWrite
 	}
+	if b.isBackup && b.f.config && strings.HasSuffix(path, "/config/arc.toml") {
+		return errInjWrite
+	}
 	return b.LocalBackend.Write(ctx, path, data)
 }
 
 func (b *faultBackend) Read(ctx context.Context, path string) ([]byte, error) {
 	if b.isBackup && b.f.manifest && strings.HasSuffix(path, "/manifest.json") {
+		return nil, errInjRead
+	}
+	if b.isBackup && b.f.sqlite && strings.HasSuffix(path, "/metadata/arc.db") {
+		return nil, errInjRead
+	}
+	if b.isBackup && b.f.config && strings.HasSuffix(path, "/config/arc.toml") {
 		return nil, errInjRead
 	}
 	return b.LocalBackend.Read(ctx, path)
@@ -241,7 +261,7 @@ func b01(b bool) string {
 }
 
 func faultStr(f *faults) string {
-	return fmt.Sprintf("mf=%s r=%s w=%s", b01(f.manifest), setStr(f.read, false), setStr(f.write, true))
+	return fmt.Sprintf("mf=%s sf=%s cf=%s r=%s w=%s", b01(f.manifest), b01(f.sqlite), b01(f.config), setStr(f.read, false), setStr(f.write, true))
 }
 
 // ---------------------------------------------------------------- one case
@@ -252,9 +272,10 @@ type restoreSpec struct {
 }
 
 type runner struct {
-	c    *vh.Ctx
-	work string
-	n    int
+	c      *vh.Ctx
+	work   string
+	n      int
+	dbTmpl []byte // a valid SQLite database file
 }
 
 func backupErrClass(err error) string {
@@ -271,8 +292,13 @@ func backupErrClass(err error) string {
 }
 
 func restoreErrClass(err error) string {
-	if strings.HasPrefix(err.Error(), "failed to read backup manifest") {
+	switch s := err.Error(); {
+	case strings.HasPrefix(s, "failed to read backup manifest"):
 		return "nomanifest"
+	case strings.HasPrefix(s, "failed to restore SQLite database"):
+		return "sqlite"
+	case strings.HasPrefix(s, "failed to restore config"):
+		return "config"
 	}
 	return "data"
 }
@@ -308,7 +334,13 @@ func (r *runner) run(files []file, bf *faults, restores []restoreSpec) {
 	// ---- backup with the real Manager
 	dataFB := newFB(dataDir, false, bf)
 	var bkFB *faultBackend
-	mgr, err := backup.NewManager(&backup.ManagerConfig{DataStorage: dataFB, BackupPath: backupDir, Logger: zerolog.Nop()})
+	metaDir := filepath.Join(dir, "meta")
+	os.MkdirAll(metaDir, 0o700)
+	cfgBytes := []byte("[storage]\nbackend = \"local\"\n")
+	os.WriteFile(filepath.Join(metaDir, "arc.db"), r.dbTmpl, 0o600)
+	os.WriteFile(filepath.Join(metaDir, "arc.toml"), cfgBytes, 0o600)
+	mgr, err := backup.NewManager(&backup.ManagerConfig{DataStorage: dataFB, BackupPath: backupDir, Logger: zerolog.Nop(),
+		SQLiteDBPath: filepath.Join(metaDir, "arc.db"), ConfigPath: filepath.Join(metaDir, "arc.toml")})
 	if err != nil {
 		panic(err)
 	}
@@ -316,13 +348,14 @@ func (r *runner) run(files []file, bf *faults, restores []restoreSpec) {
 		bkFB = newFB(backupDir, true, bf)
 		return bkFB
 	})
+	bop := fmt.Sprintf("backup inc=%s%s %s", b01(bf.optMeta), b01(bf.optCfg), faultStr(bf))
 	var res *backup.BackupResult
 	var berr error
 	if p := vh.Guard(func() string {
-		res, berr = mgr.CreateBackup(ctx, backup.BackupOptions{})
+		res, berr = mgr.CreateBackup(ctx, backup.BackupOptions{IncludeMetadata: bf.optMeta, IncludeConfig: bf.optCfg})
 		return ""
 	}); p != "" {
-		emit("backup "+faultStr(bf), p)
+		emit(bop, p)
 		c.Case(canon.String(), true)
 		return
 	}
@@ -361,8 +394,12 @@ func (r *runner) run(files []file, bf *faults, restores []restoreSpec) {
 		if st != "completed" {
 			st = "status=" + st
 		}
-		bout = fmt.Sprintf("%s total=%d size=%d skipped=%d dbs=%d meas=%d ptotal=%d processed=%d pbytes=%d pskipped=%d store=%s",
-			st, num("total_files"), num("total_size_bytes"), num("skipped_files"), dbs, meas,
+		flag := func(k string) string {
+			v, _ := persisted[k].(bool)
+			return b01(v)
+		}
+		bout = fmt.Sprintf("%s total=%d size=%d skipped=%d dbs=%d meas=%d hasmeta=%s hascfg=%s ptotal=%d processed=%d pbytes=%d pskipped=%d store=%s",
+			st, num("total_files"), num("total_size_bytes"), num("skipped_files"), dbs, meas, flag("has_metadata"), flag("has_config"),
 			prog.TotalFiles, prog.ProcessedFiles, prog.ProcessedBytes, prog.SkippedFiles, showTree(stored))
 		// ---- monitor (clause 3): a completed backup that does not hold every visible data / Iceberg
 		// metadata file byte-for-byte must say so in its persisted manifest.
@@ -380,7 +417,7 @@ func (r *runner) run(files []file, bf *faults, restores []restoreSpec) {
 				c.Fail("backup-incomplete-unrecorded:CreateBackup",
 					fmt.Sprintf("CreateBackup reported completed, backup lacks %d file(s) (first: %s) but manifest skipped_files=%d (in-memory %d)",
 						len(missing), missing[0], num("skipped_files"), res.Manifest.SkippedFiles),
-					canon.String()+"backup "+faultStr(bf)+" => "+bout+"\n")
+					canon.String()+bop+" => "+bout+"\n")
 			}
 			if num("skipped_files") > 0 {
 				c.Tag("backup:completed-with-skips")
@@ -390,7 +427,7 @@ func (r *runner) run(files []file, bf *faults, restores []restoreSpec) {
 			}
 		}
 	}
-	emit("backup "+faultStr(bf), bout)
+	emit(bop, bout)
 	c.Tag("backup:" + strings.SplitN(bout, " ", 2)[0])
 
 	// ---- restores
@@ -403,15 +440,20 @@ func (r *runner) run(files []file, bf *faults, restores []restoreSpec) {
 			os.MkdirAll(rdir, 0o700)
 		}
 		rdata := newFB(rdir, false, rs.f)
-		rmgr, err := backup.NewManager(&backup.ManagerConfig{DataStorage: rdata, BackupPath: backupDir, Logger: zerolog.Nop()})
+		rmeta := filepath.Join(dir, "rmeta")
+		os.RemoveAll(rmeta)
+		os.MkdirAll(rmeta, 0o700)
+		rmgr, err := backup.NewManager(&backup.ManagerConfig{DataStorage: rdata, BackupPath: backupDir, Logger: zerolog.Nop(),
+			SQLiteDBPath: filepath.Join(rmeta, "arc.db"), ConfigPath: filepath.Join(rmeta, "arc.toml")})
 		if err != nil {
 			panic(err)
 		}
 		backup.VerifC13WrapBackupStorage(rmgr, func(storage.Backend) storage.Backend { return newFB(backupDir, true, rs.f) })
 		var rerr error
-		op := fmt.Sprintf("restore into=%s %s", rs.into, faultStr(rs.f))
+		op := fmt.Sprintf("restore into=%s opts=%s%s%s %s", rs.into, b01(!rs.f.optNoData), b01(rs.f.optMeta), b01(rs.f.optCfg), faultStr(rs.f))
 		if p := vh.Guard(func() string {
-			_, rerr = rmgr.RestoreBackup(ctx, backup.RestoreOptions{BackupID: backupID, RestoreData: true})
+			_, rerr = rmgr.RestoreBackup(ctx, backup.RestoreOptions{BackupID: backupID, RestoreData: !rs.f.optNoData,
+				RestoreMetadata: rs.f.optMeta, RestoreConfig: rs.f.optCfg})
 			return ""
 		}); p != "" {
 			emit(op, p)
@@ -429,13 +471,24 @@ func (r *runner) run(files []file, bf *faults, restores []restoreSpec) {
 			st = "status=" + rp.Status
 		}
 		tb := rp.TotalBytes
-		out := fmt.Sprintf("%s processed=%d total=%d pbytes=%d tbytes=%d tree=%s", st, rp.ProcessedFiles, rp.TotalFiles, rp.ProcessedBytes, tb, showTree(after))
+		same := func(restored, inBackup string) string {
+			a, e1 := os.ReadFile(restored)
+			b, e2 := os.ReadFile(inBackup)
+			return b01(e1 == nil && e2 == nil && string(a) == string(b))
+		}
+		out := fmt.Sprintf("%s processed=%d total=%d pbytes=%d tbytes=%d db=%s cfg=%s tree=%s", st, rp.ProcessedFiles, rp.TotalFiles, rp.ProcessedBytes, tb,
+			same(filepath.Join(rmeta, "arc.db"), filepath.Join(backupDir, backupID, "metadata", "arc.db")),
+			same(filepath.Join(rmeta, "arc.toml"), filepath.Join(backupDir, backupID, "config", "arc.toml")), showTree(after))
 		emit(op, out)
 		c.Tag("restore:" + st)
+		c.Tag("restore-opts:" + b01(!rs.f.optNoData) + b01(rs.f.optMeta) + b01(rs.f.optCfg))
+		if strings.Contains(out, " db=1") {
+			c.Tag("restore:sqlite-restored")
+		}
 		success := rerr == nil && rp.Status == "completed"
 		// ---- monitor (clause 2): success reported ⇒ every file held by the backup is in the data
 		// storage, byte-for-byte, at its original path.
-		if success {
+		if success && !rs.f.optNoData {
 			lost := []string{}
 			for p, b := range stored {
 				if ab, ok := after[p]; !ok || string(ab) != string(b) {
@@ -446,15 +499,15 @@ func (r *runner) run(files []file, bf *faults, restores []restoreSpec) {
 			if len(lost) > 0 {
 				c.Tag("restore:success-with-lost-files")
 				c.Fail("restore-success-missing-files:restoreDataFiles",
-					fmt.Sprintf("RestoreBackup returned nil and status=completed (processed %d of %d) but %d backed-up file(s) were not restored (first: %s)",
-						rp.ProcessedFiles, rp.TotalFiles, len(lost), lost[0]),
+					fmt.Sprintf("RestoreBackup{data:true metadata:%v config:%v} returned nil and status=completed (processed %d of %d) but %d backed-up file(s) were not restored (first: %s)",
+						rs.f.optMeta, rs.f.optCfg, rp.ProcessedFiles, rp.TotalFiles, len(lost), lost[0]),
 					canon.String())
 			}
 		}
 		// ---- monitor (clause 1): fault-free restore of a completed backup into empty storage
 		// reproduces exactly the backed-up files; with a fault-free backup these are exactly the
 		// visible data / Iceberg metadata files of the original tree.
-		if backupOK && rs.into == "empty" && !rs.f.any() {
+		if backupOK && rs.into == "empty" && !rs.f.any() && !rs.f.optNoData {
 			want := stored
 			if !bf.any() {
 				want = map[string][]byte{}
@@ -488,7 +541,7 @@ func sameBytes(a, b map[string][]byte) bool {
 
 func anyRestoreFault(rs []restoreSpec) bool {
 	for _, r := range rs {
-		if r.f.any() || r.into != "empty" {
+		if r.f.any() || r.into != "empty" || r.f.optMeta || r.f.optCfg || r.f.optNoData {
 			return true
 		}
 	}
@@ -673,6 +726,23 @@ func pickFaults(r *vh.Rand, paths []string, restore bool) *faults {
 	return f
 }
 
+// makeSQLite creates a small valid SQLite database (driver registered by internal/backup's import).
+func makeSQLite(path string) []byte {
+	db, err := sql.Open("sqlite3", path)
+	if err != nil {
+		panic(err)
+	}
+	if _, err := db.Exec("CREATE TABLE marker (id INTEGER PRIMARY KEY, v TEXT); INSERT INTO marker(v) VALUES ('verif')"); err != nil {
+		panic(err)
+	}
+	db.Close()
+	b, err := os.ReadFile(path)
+	if err != nil {
+		panic(err)
+	}
+	return b
+}
+
 func permN(r *vh.Rand, n int) []int {
 	p := make([]int, n)
 	for i := range p {
@@ -716,7 +786,7 @@ func main() {
 	os.MkdirAll(filepath.Join(work, "tmp"), 0o700)
 	os.Setenv("TMPDIR", filepath.Join(work, "tmp"))
 	defer os.RemoveAll(work)
-	rn := &runner{c: c, work: work}
+	rn := &runner{c: c, work: work, dbTmpl: makeSQLite(filepath.Join(work, "tmpl.db"))}
 	r := vh.NewRand(c.Seed)
 
 	// ---- (1) edge grid
@@ -732,6 +802,18 @@ func main() {
 	empty := func() []restoreSpec { return []restoreSpec{{"empty", noFaults()}} }
 	// minimal replay of the restore finding first (c.Fail keeps the first replay per key)
 	rn.run(one, noFaults(), []restoreSpec{{"empty", &faults{read: rd(one[0].path), write: map[string]int{}}}})
+	// data-file failure while the SQLite metadata / arc.toml steps succeed (a later step must not mask it)
+	withMeta := func() *faults { f := noFaults(); f.optMeta = true; f.optCfg = true; return f }
+	rn.run(one, withMeta(), []restoreSpec{{"empty", &faults{read: rd(one[0].path), write: map[string]int{}, optMeta: true}}})
+	rn.run(one, withMeta(), []restoreSpec{{"empty", &faults{read: map[string]int{}, write: rd(one[0].path), optMeta: true, optCfg: true}},
+		{"empty", &faults{read: rd(one[0].path), write: map[string]int{}, optCfg: true}},
+		{"empty", &faults{read: map[string]int{}, write: map[string]int{}, optMeta: true, optCfg: true}},
+		{"empty", &faults{read: rd(one[0].path), write: map[string]int{}, optMeta: true, sqlite: true}},
+		{"empty", &faults{read: map[string]int{}, write: map[string]int{}, optMeta: true, optCfg: true, config: true}},
+		{"orig", &faults{read: map[string]int{}, write: map[string]int{}, optMeta: true, optNoData: true}}})
+	bsf := withMeta()
+	bsf.sqlite, bsf.config = true, true // the copies fail: non-fatal, has_metadata/has_config stay false
+	rn.run(one, bsf, []restoreSpec{{"empty", &faults{read: rd(one[0].path), write: map[string]int{}, optMeta: true, optCfg: true}}})
 	rn.run(one, noFaults(), empty())
 	rn.run(one, noFaults(), []restoreSpec{{"empty", &faults{read: map[string]int{}, write: rd(one[0].path)}}})
 	rn.run(one, noFaults(), []restoreSpec{{"empty", &faults{read: map[string]int{}, write: map[string]int{one[0].path: 2}}}, {"orig", noFaults()}})
@@ -774,6 +856,8 @@ func main() {
 		fs := genTree(r)
 		ps := paths(fs)
 		bf := pickFaults(r, ps, false)
+		bf.optMeta, bf.optCfg = r.Chance(55), r.Chance(35)
+		bf.sqlite, bf.config = bf.optMeta && r.Chance(10), bf.optCfg && r.Chance(10)
 		var rs []restoreSpec
 		nr := r.Range(1, 2)
 		for i := 0; i < nr; i++ {
@@ -781,9 +865,12 @@ func main() {
 			if r.Chance(25) {
 				into = "orig"
 			}
-			rs = append(rs, restoreSpec{into, pickFaults(r, ps, true)})
+			rf := pickFaults(r, ps, true)
+			rf.optMeta, rf.optCfg, rf.optNoData = r.Chance(55), r.Chance(35), r.Chance(6)
+			rf.sqlite, rf.config = rf.optMeta && r.Chance(15), rf.optCfg && r.Chance(12)
+			rs = append(rs, restoreSpec{into, rf})
 		}
 		rn.run(fs, bf, rs)
 	}
-	c.Finish("cases = (storage tree, backup fault subset, 1–2 restores each with its own fault subset and target) — an edge grid (minimal restore-fault replays, skip-ratio boundary k-of-n, the repo's Iceberg layout) plus random trees (1–3 databases × 1–3 measurements × nested hour dirs, Iceberg metadata dirs, hidden / non-data files, empty and >32 KiB files); non-trivial = some fault injected, non-empty restore target, or a tree with a non-backed-up / empty / large file; distinct = distinct op+outcome text")
+	c.Finish("cases = (storage tree, backup options {SQLite metadata, arc.toml} + fault subset, 1–2 restores each with its own options {data, metadata, config}, fault subset incl. SQLite/config step failure, and target) — an edge grid (minimal restore-fault replays, skip-ratio boundary k-of-n, the repo's Iceberg layout) plus random trees (1–3 databases × 1–3 measurements × nested hour dirs, Iceberg metadata dirs, hidden / non-data files, empty and >32 KiB files); non-trivial = some fault injected, non-empty restore target, or a tree with a non-backed-up / empty / large file; distinct = distinct op+outcome text")
 }
